@@ -495,6 +495,12 @@ func genCycle(r *u.Rng, scenario int) *CycleCase {
 			default: // capacity but no pod slots
 				ns.Cpu, ns.Mem, ns.Gpus = 4000, 8<<30, 2
 			}
+			if ns.Gpus > 0 || ns.Cpu > 0 {
+				// a Ready node's allocatable counts towards the cluster total the fair shares are
+				// computed from, whether or not a pod fits on it: the healthy queues may legitimately
+				// be given more
+				c.Compare = false
+			}
 			c.Nodes = append(c.Nodes, ns)
 			c.NoLabel[ns.Name] = r.Chance(2, 3)
 		}
